@@ -53,6 +53,11 @@ def pieces_for(n, r):
         rem -= m
 
 
+# one-letter tokens of harness/src/sio.rs: an error of that io::ErrorKind (Interrupted, TimedOut, WriteZero, UnexpectedEof,
+# BrokenPipe, WouldBlock, Other, InvalidData, ConnectionReset, NotFound, PermissionDenied)
+KINDS = list("itzubwodcnp")
+
+
 def gen(rng, tier):
     quick = tier != "thorough"
     cases = []
@@ -158,9 +163,18 @@ def gen(rng, tier):
             cases.append(case(d, r=r, w=ws[:i] + ["f"]))
             cases.append(case(d, r=r, w=ws[:i] + [0]))
             # an error of another kind (Interrupted, TimedOut) right after a short write: no retry, no restart of the chunk
-            cases.append(case(d, r=r, w=ws[:i] + [rng.choice([1, 2, 3]), rng.choice(["i", "t"]), 100000]))
+            cases.append(case(d, r=r, w=ws[:i] + [rng.choice([1, 2, 3]), rng.choice(KINDS), 100000]))
         for i in range(0, min(len(r), 6) + 1):               # a source error of another kind before / between pieces
-            cases.append(case(d, r=r[:i] + [rng.choice(["i", "t"])] + r[i:], w=rng.choice([[], [1] * 20])))
+            cases.append(case(d, r=r[:i] + [rng.choice(KINDS)] + r[i:], w=rng.choice([[], [1] * 20])))
+    # every error kind, as a source error (first read / between pieces / where end-of-stream would be) and as a sink error
+    for k in KINDS:
+        cases.append(case("g7_0", r=[k]))
+        cases.append(case("g7_10", r=[k, 10]))
+        cases.append(case("g7_10", r=[5, k, 5]))
+        cases.append(case("g7_10", r=[5, 5, k]))
+        cases.append(case("g7_70000", r=[65528, k, 4472]))
+        cases.append(case("g7_10", r=[5, 5], w=[3, k]))
+        cases.append(case("g7_10", r=[5, 5], w=[100, 100, k]))
     for _ in range(60 if quick else 800):                    # larger: around every chunk boundary
         n = rng.choice([rng.randint(100, 5000), rng.randint(60000, 140000)])
         r = rsched(n)
